@@ -13,6 +13,10 @@ CLAIMED = {
             "Static, all-paths: the full decision table of every workspace impl RetrySession is extracted from type-checked MIR and every Retry* site is shown to lie where is_idempotent is true or the error class is within the SAFE set; the interpreting loop is shown (reachability after cuts) to re-send only through a Retry* decision. Decides the structural clauses, not end-to-end frame counts.",
             "Trusts rustc MIR construction; SAFE set transcribed from the property text; user-supplied policies out of scope.",
             "DESIGN.md §3 C06"),
+    "C07": ("dataflow regions over PagingStateResponse variants, def-use provenance of the cursor, CFG cut rules on the producer loops of the pre-lowering coroutines, guard region on the consumer",
+            "Static, all page splits and consumer behaviours for the clauses that are code shape: MorePages/Continue is produced only on the HasMorePages arm and the cursor is assigned from that arm's state (never on NoMorePages); every attempt is given the current cursor and a new pager starts from PagingState::start(); both producer loops fetch the next page only after this iteration's page was sent with an awaited Ok and more pages were announced, and stop on a closed channel, on NoMorePages/Break and after an error was sent; the consumer replaces its page only when exhausted; every page goes through the common retry core with a fresh plan. (The re-sent EXECUTE keeping its paging state is C14.R2.)",
+            "Trusts rustc MIR and mpsc FIFO semantics.",
+            "DESIGN.md §3 C07"),
     "C08": ("call-graph reachability from decode entry points + panic-site census with reviewed/discharged table, shape-set consistency of `unreachable!` arms, origin classification of allocation sizes, SCC recursion review",
             "Static, all inputs: over the ~1750 workspace functions reachable from the decode entry points, every Assert terminator and panicking-API call is either discharged by a local rule or listed in a reviewed table with its guard (some guards re-checked structurally); every `unreachable!/expect` that relies on a prior type_check is shown to be reachable only under shapes the sibling type_check rejects; every capacity-taking call is classified by the origin of its size and a 32-bit wire field must be clamped by the remaining input; every call-graph cycle must have a reviewed depth bound. Two defects were repaired by fix: commits (unchecked preallocation from column counts, vector size overflow); four are recorded as known findings (frame-length and LZ4 preallocation, two unbounded recursions). Termination of parser loops and exact content of decoded values are not decided.",
             "Trusts rustc MIR, the call-graph over-approximation for dyn/generic calls, and the reviewed tables (each entry confirmed by reading). Third-party crates by signature.",
